@@ -56,6 +56,7 @@ func collectFormulas(p *Prog) map[string][]formulaSite {
 				return
 			}
 			polyAbstract = true
+			polyAbsSeen = nil
 			abs, ok2 := exprPoly(info, rhs, nil, nil, 0)
 			polyAbstract = false
 			if !ok2 {
@@ -96,7 +97,7 @@ func init() {
 				continue
 			}
 			for _, s := range all[fn] {
-				fmt.Printf("%s|%s|%s|%s|%s|%s\n", s.fn, s.target, s.tok, s.named, s.abs, s.text)
+				fmt.Printf("%s\t%s\t%s\t%s\t%s\t%s\n", s.fn, s.target, s.tok, s.named, s.abs, s.text)
 			}
 		}
 		os.Exit(0)
